@@ -102,7 +102,8 @@ def check_blocks(run, vecs):
                          "the source is not a template (offending token %s %s at %d:%d) but was parsed" %
                          (exp["attyp"], common.show(bytes(exp["atname"])), exp["line"], exp["col"]),
                          expected="an error", observed={"src": src})
-        elif not exp["ok"] and exp["attyp"] == "NAME" and (err.get("line"), err.get("col")) != (exp["line"], exp["col"]):
+        elif not exp["ok"] and exp["attyp"] in ("NAME", "OPERATOR") and (err.get("line"), err.get("col")) != (exp["line"], exp["col"]) \
+                and not (exp["attyp"] == "OPERATOR" and not err.get("line")):       # an error that reports no position reports no wrong one
             run.mismatch("C20 blocks: error not located at the offending tag name", v,
                          "the tag name %s at %d:%d has nothing to belong to" % (common.show(bytes(exp["atname"])), exp["line"], exp["col"]),
                          expected={"line": exp["line"], "col": exp["col"]}, observed={"src": src, "err": err})
